@@ -49,6 +49,11 @@ const KeyMergeLabels = "C14/failed-label-merge-visible"
 // a tombstone store was removed" (see TestFinding_heartbeat_panics_after_tombstone_removed).
 const KeyHeartbeatPanic = "C14/heartbeat-panics-after-tombstone-removed"
 
+// KeyStaleDeleted names the finding "a store whose record was removed while another member
+// led is served again when this member becomes leader again" (see
+// TestFinding_removed_store_served_again_after_leader_round_trip).
+const KeyStaleDeleted = "C14/removed-store-served-again-after-leader-round-trip"
+
 func init() {
 	quiet()
 	vkit.Register("lifecycle", vkit.N{Quick: 2400, Thorough: 40000}, genCase, runCase)
@@ -146,7 +151,8 @@ var kinds = []string{
 	"drop", "drop", "drop",
 	"role", "role", "role", "role",
 	"hb", "hb",
-	"restart", "restart", "restart",
+	"restart", "restart",
+	"handover", "handover", "handover", "handover",
 	"fail", "fail", "fail",
 }
 
@@ -161,7 +167,7 @@ func genCase(t *rapid.T) Case {
 	c.Init = rapid.IntRange(1, 4).Draw(t, "init")
 	n := rapid.IntRange(10, 50).Draw(t, "nOps")
 	for i := 0; i < n; i++ {
-		op := Op{Kind: rapid.SampledFrom(kinds).Draw(t, "kind")}
+		op := Op{Kind: kinds[vkit.Uni(t, len(kinds), "kind")]}
 		op.Pick = rapid.IntRange(0, 15).Draw(t, "pick")
 		switch op.Kind {
 		case "putNew":
@@ -231,7 +237,7 @@ func genCase(t *rapid.T) Case {
 		}
 		c.Ops = append(c.Ops, op)
 		// the background store check often is the first thing that runs after a restart
-		if op.Kind == "restart" && rapid.IntRange(0, 2).Draw(t, "checkAfterRestart") > 0 {
+		if (op.Kind == "restart" || op.Kind == "handover") && rapid.IntRange(0, 2).Draw(t, "checkAfterRestart") > 0 {
 			c.Ops = append(c.Ops, Op{Kind: "check", Pick: rapid.IntRange(0, 15).Draw(t, "pick")})
 		}
 	}
@@ -609,9 +615,15 @@ type fixture struct {
 	rc      *cluster.RaftCluster
 	opt     *config.PersistOptions
 	fkv     *faultkv.KV
-	oracle  *core.Storage // reads the backend directly
-	bc      *core.BasicCluster
+	oracle  *core.Storage      // reads the backend directly
+	bc      *core.BasicCluster // the cache of the serving member (== members[cur])
 	pending *fault
+	// two PD members of one process lifetime each: a member's BasicCluster is created once per
+	// process (Server.basicCluster) and handed to InitCluster on every leadership term, so it
+	// still holds whatever the member cached during its last term. Regions reach the idle
+	// member through the region syncer (mirrored by the harness), stores do not.
+	members [2]*core.BasicCluster
+	cur     int
 }
 
 func newFixture(c Case) (*fixture, error) {
@@ -626,7 +638,9 @@ func newFixture(c Case) (*fixture, error) {
 	opt := config.NewPersistOptions(cfg)
 	opt.SetClusterVersion(semver.New(clusterVersions[c.ClusterVer]))
 	mem := kv.NewMemoryKV()
-	f := &fixture{opt: opt, fkv: faultkv.New(mem), oracle: core.NewStorage(mem), bc: core.NewBasicCluster()}
+	f := &fixture{opt: opt, fkv: faultkv.New(mem), oracle: core.NewStorage(mem)}
+	f.members = [2]*core.BasicCluster{core.NewBasicCluster(), core.NewBasicCluster()}
+	f.bc = f.members[0]
 	ctx, cancel := context.WithCancel(context.Background())
 	f.cancel = cancel
 	f.rc = cluster.NewRaftCluster(ctx, "/pd/c14", 1, nil, nil, nil)
@@ -680,10 +694,25 @@ func newRegion(meta *metapb.Region) *core.RegionInfo {
 // same storage, filled by LoadClusterInfo (stores via LoadStores, regions via LoadRegions).
 // The options object is kept (a member keeps its options and reloads them from the same storage).
 func (f *fixture) restart() error {
+	// a process restart of the serving member: its cache starts empty; it catches up with the
+	// regions from storage (LoadClusterInfo) like a restarted PD
+	f.members[f.cur] = core.NewBasicCluster()
+	return f.start()
+}
+
+// handover models a leadership change to the other member of the same deployment: the
+// serving cluster stops and a new RaftCluster starts on the OTHER member's BasicCluster as it
+// is, by InitCluster + LoadClusterInfo — what RaftCluster.Start does with Server.basicCluster.
+func (f *fixture) handover() error {
+	f.cur = 1 - f.cur
+	return f.start()
+}
+
+func (f *fixture) start() error {
 	f.cancel()
 	ctx, cancel := context.WithCancel(context.Background())
 	f.cancel = cancel
-	f.bc = core.NewBasicCluster()
+	f.bc = f.members[f.cur]
 	rc := cluster.NewRaftCluster(ctx, "/pd/c14", 1, nil, nil, nil)
 	rc.InitCluster(mockid.NewIDAllocator(), f.opt, core.NewStorage(f.fkv), f.bc)
 	got, err := rc.LoadClusterInfo()
@@ -695,6 +724,11 @@ func (f *fixture) restart() error {
 	}
 	f.rc = rc
 	return nil
+}
+
+// syncRegion: the region syncer forwards every changed region to the other member's cache.
+func (f *fixture) syncRegion(r *core.RegionInfo) {
+	f.members[1-f.cur].CheckAndPutRegion(r)
 }
 
 // syncStatus does what processRegionHeartbeat does after it changed the region cache.
@@ -796,6 +830,8 @@ func runHistory(c Case, spinners int) (vkit.Info, error) {
 
 	reachedTomb, tombAddressed, rejected := false, false, false
 	afterRestart := false // no store operation since the last restart
+	terms := [2]int{1, 0} // leadership terms served by each member so far
+	knownStale := vkit.Known(KeyStaleDeleted)
 	pendingN := 0
 	for i, op := range c.Ops {
 		if op.Kind == "fail" {
@@ -851,6 +887,7 @@ func runHistory(c Case, spinners int) (vkit.Info, error) {
 			if err := rc.VerifProcessRegionHeartbeat(mr.info()); err != nil {
 				return info, fmt.Errorf("%s: harness: heartbeat of new region %d refused: %v", at, rid, err)
 			}
+			f.syncRegion(mr.info())
 			m.regions = append(m.regions, mr)
 			if mr.roles[0] == 1 {
 				info.Class("learner-peer-placed")
@@ -927,6 +964,7 @@ func runHistory(c Case, spinners int) (vkit.Info, error) {
 			if err := rc.VerifProcessRegionHeartbeat(r.info()); err != nil {
 				return info, fmt.Errorf("%s: harness: heartbeat of region %d (conf_ver %d) refused: %v", at, r.id, r.confVer, err)
 			}
+			f.syncRegion(r.info())
 			for _, s := range r.stores {
 				if m.stores[s] != nil {
 					m.cached[s] = m.regionCount(s)
@@ -962,6 +1000,9 @@ func runHistory(c Case, spinners int) (vkit.Info, error) {
 				return info, fmt.Errorf("%s: harness: region %d of the model is not in the cache", at, r.id)
 			}
 			f.bc.RemoveRegion(cur)
+			if o := f.members[1-f.cur].GetRegion(r.id); o != nil {
+				f.members[1-f.cur].RemoveRegion(o) // a vanished region vanishes on both members
+			}
 			if err := f.oracle.DeleteRegion(cur.GetMeta()); err != nil {
 				return info, fmt.Errorf("%s: harness: %v", at, err)
 			}
@@ -975,11 +1016,38 @@ func runHistory(c Case, spinners int) (vkit.Info, error) {
 			}
 			f.syncStatus(still...)
 			continue
-		case "restart":
+		case "restart", "handover":
 			if spinners > 0 {
 				continue // the spinners work on the current cluster object
 			}
-			if err := f.restart(); err != nil {
+			if op.Kind == "handover" {
+				// what the member that takes over still has cached from its last term
+				stale := f.members[1-f.cur]
+				differs := false
+				for _, st := range stale.GetStores() {
+					ms := m.stores[st.GetID()]
+					if ms == nil {
+						differs = true
+						info.Class("stale-cache-holds-removed-store-at-handover")
+						if knownStale {
+							// known finding: exactly these histories are excluded by dropping the entry
+							stale.DeleteStore(st)
+							info.Exclude(KeyStaleDeleted)
+						}
+						continue
+					}
+					if (rec{meta: st.GetMeta(), lw: st.GetLeaderWeight(), rw: st.GetRegionWeight()}).String() != ms.String() {
+						differs = true
+					}
+				}
+				terms[1-f.cur]++
+				info.ClassIf(differs, "stale-cache-differs-at-handover")
+				info.ClassIf(terms[1-f.cur] > 1, "handover-round-trip")
+				if err := f.handover(); err != nil {
+					return info, fmt.Errorf("%s: harness: %v", at, err)
+				}
+				info.Class("handover")
+			} else if err := f.restart(); err != nil {
 				return info, fmt.Errorf("%s: harness: %v", at, err)
 			}
 			rc = f.rc
@@ -997,7 +1065,7 @@ func runHistory(c Case, spinners int) (vkit.Info, error) {
 				}
 				offlineWithPeers = offlineWithPeers || (s.state == stOffline && m.regionCount(id) > 0)
 			}
-			info.Class("restart")
+			info.ClassIf(op.Kind == "restart", "restart")
 			info.ClassIf(offlineWithPeers, "restart-with-offline-store-holding-peers")
 			afterRestart = true
 			if err := f.compare(m, at); err != nil {
